@@ -470,5 +470,30 @@ def run(rc):
 
 
 def replay(data):
+    """Re-evaluates a recorded expression (must-reject grid, frame routes) or re-runs a recorded history."""
+    d = data['detail']
+    sig = data.get('signature', '')
+    if 'expression' in d and 'history' not in d:
+        install()
+        from tatsu.util.safeeval import is_eval_safe, safe_builtins
+        ctx = dict(safe_builtins())
+        ctx.update({'a': 't'})
+        ok = is_eval_safe(d['expression'], ctx)
+        print(d['expression'], '-> accepted by is_eval_safe:', ok)
+        if ok and ('accepted' in sig or 'frame' in sig):
+            print('VIOLATION property=C17 replay=reproduced')
+            return 1
+        return 0
+    if 'history' in d:
+        from ..forkrun import in_child
+        idx = [i for g in d['history'] for i, (hg, _t) in enumerate(HISTORY_POOL) if hg == g][:len(d['history'])]
+        r = in_child(run_history, tuple(idx))
+        alone = in_child(run_history, (idx[d['position']],))
+        print('in history :', r[1][d['position']] if r[0] == 'ok' else r)
+        print('run first  :', alone[1][0] if alone[0] == 'ok' else alone)
+        if r[0] == 'ok' and alone[0] == 'ok' and r[1][d['position']] != alone[1][0]:
+            print('VIOLATION property=C17 replay=reproduced')
+            return 1
+        return 0
     from ..replay import replay_grammar_case
     return replay_grammar_case(data)
